@@ -58,6 +58,8 @@ PROFILES["pairs"] = st.one_of(
     st.tuples(_DICT_KEYS, K).map(lambda t: ["t", [t[0], t[1]]]),
     st.tuples(_DICT_KEYS, K).map(lambda t: ["t", [t[0], t[1]]]),
     st.tuples(_DICT_KEYS, K).map(lambda t: ["l", [t[0], t[1]]]),
+    st.tuples(_DICT_KEYS, K).map(lambda t: ["it", [t[0], t[1]]]),
+    _v(["it", [["i", 1]]], ["it", [["i", 1], ["i", 2], ["i", 3]]], ["it", []]),
     _v(["t", [["l", []], ["i", 1]]], ["t", [["i", 1]]], ["t", [["i", 1], ["i", 2], ["i", 3]]],
        ["i", 5], ["s", "ab"]),
 )
@@ -84,7 +86,7 @@ class Uids:
         if isinstance(v, tuple) and v and v[0] == "EQ":
             self.n += 1
             return ["E", self.n - 1]
-        if isinstance(v, (list, tuple)) and v and v[0] in ("t", "l"):
+        if isinstance(v, (list, tuple)) and v and v[0] in ("t", "l", "it"):
             return [v[0], [self.fix(x) for x in v[1]]]
         return list(v) if isinstance(v, tuple) else v
 
@@ -190,6 +192,8 @@ def base_case(draw, name, max_len=8, max_src=4, steps="full", min_len=0, min_src
             fns[role] = draw(fn_spec(_role_kind(role, fnkind)))
             if role == "key" and name in ("sorted", "min", "max") and draw(st.integers(0, 5)) == 0:
                 fns[role] = draw(fn_spec("oddkey"))
+            elif role == "key" and name in ("sorted", "min", "max", "nlargest", "nsmallest") and draw(st.integers(0, 5)) == 0:
+                fns[role]["kind"] = "bycall"  # keys that depend on the order of the calls
     if any(f.get("kind") == "typeof" for f in fns.values()) and profile in ("truthy", "item") and srcs \
             and srcs[-1]["items"] and srcs[-1].get("alias") is None and name != "merge" and draw(st.booleans()):
         # the FIRST result of the callable is the class of an awaitable object
